@@ -12,8 +12,9 @@ unchanged tree.
 """
 import os, re, sys, json
 
-REPO = os.environ.get("VERIF_REPO", "/repo")
-OUT = os.path.join(os.path.dirname(os.path.abspath(__file__)), "..", "lean", "Zstd", "Gen")
+_VERIF = os.path.dirname(os.path.dirname(os.path.abspath(__file__)))
+REPO = os.environ.get("VERIF_REPO", os.path.realpath(os.path.join(_VERIF, "repo")))
+OUT = os.path.join(_VERIF, "lean", "Zstd", "Gen")
 SRC = os.path.join(REPO, "ruzstd", "src")
 
 
